@@ -133,14 +133,23 @@ def main():
     t_budget = getattr(mod, "TIME_BUDGET", {"quick": 240, "thorough": 1500})[tier]
     t_start = time.time()
     n = 0
+    seen = []
     for case in mod.cases(tier, seed):
         process(case, sample=(n % 97 == 0 or n < 2))
+        seen.append(case)
         n += 1
         if len(failures) >= 3 or len(disagreements) >= 5:
             break
         if time.time() - t_start > t_budget:
             run.notes.append(f"time budget {t_budget}s reached after {n} cases")
             break
+
+    # ---- 2b. are the hypotheses of the property's theorems met by the inputs that were just tested?
+    if hasattr(mod, "post") and not st.broken:
+        try:
+            mod.post(run, seen)
+        except Exception as e:
+            run.notes.append(f"hypothesis evaluation failed to run: {e}")
 
     # ---- 3. known findings: replay each recorded witness
     for k in known:
